@@ -61,7 +61,7 @@ func VP_C19_Eligibility() {
 	n := 1 + vpChoose("entries", 2)
 	var ents []vpHookEnt
 	for i := 0; i < n; i++ {
-		e := vpHookEnt{name: names[vpChoose("name", len(names))], kind: vpChoose("kind", 3), mode: vpInt("mode", 0, 0777)}
+		e := vpHookEnt{name: names[vpChoose("name", len(names))], kind: vpChoose("kind", 4), mode: vpInt("mode", 0, 0777)}
 		dup := false
 		for _, o := range ents {
 			if o.name == e.name {
@@ -82,6 +82,9 @@ func VP_C19_Eligibility() {
 		case 2:
 			os.Mkdir(p, 0700)
 			os.Chmod(p, os.FileMode(e.mode))
+		case 3: // a link whose target is gone: looks eligible, cannot be started; the others still are
+			os.Symlink(filepath.Join(root, "gone.sh"), p)
+			e.mode = 0777
 		}
 		ents = append(ents, e)
 	}
@@ -100,6 +103,9 @@ func VP_C19_Eligibility() {
 				vpAssert("single-argument-update", s.args == "update")
 				vpAssert("store-directory-in-environment", s.store == "/the/store")
 			}
+		}
+		if e.kind == 3 {
+			continue // whether the attempt is recorded is immaterial: it cannot run
 		}
 		vpAssert("started-iff-eligible", (cnt == 1) == eligible && cnt <= 1)
 	}
@@ -290,5 +296,23 @@ func VP_C19_HookStoreFollowsReload() {
 		ok = ok && vpExecHasEnv(i, "WHAWTY_AUTH_STORE="+want)
 	}
 	vpAssert("model: hooks-get-the-current-store-directory", ok)
+	vpCover("end")
+}
+
+// VP_C19_UpgradeNotifies: a record the agent rewrites on its own (local hash upgrade after a
+// successful login) is a change like any other: the hooks are notified - exactly when the
+// record was rewritten.
+func VP_C19_UpgradeNotifies() {
+	def := 1 + vpChoose("default", 2)
+	s, st, base, _ := vpAgent(def, vpModes())
+	st.Check()
+	own := &HooksCaller{Notify: make(chan bool, 32), NewStore: make(chan string, 1)}
+	s.hooks = own
+	before := vpFsSnapshot(base)
+	pw := []string{"old", "bad"}[vpChoose("password", 2)]
+	st.Authenticate("u", pw)
+	vpSettle()
+	changed := !vpFsSame(before, vpFsSnapshot(base))
+	vpAssert("notified-iff-the-record-was-rewritten", (len(own.Notify) >= 1) == changed)
 	vpCover("end")
 }
